@@ -529,6 +529,10 @@ fn mode_determinism(_seed: u64, limit: usize) -> Vec<serde_json::Value> {
     let root = std::path::Path::new("/repo/examples/acceptance_tests");
     let mut dirs: Vec<std::path::PathBuf> = std::fs::read_dir(root).map(|rd| rd.filter_map(|e| e.ok()).map(|e| e.path()).collect()).unwrap_or_default();
     dirs.sort();
+    // a fixture written for this oracle: same-named constants and validators in different modules, a cycle of three
+    // mutually recursive functions, labelled expectations in different orders
+    let fixture = std::path::Path::new(env!("CARGO_MANIFEST_DIR")).join("fixtures").join("histories");
+    dirs.insert(0, fixture.clone());
     let work = std::env::temp_dir().join(format!("verif-determinism-{}", std::process::id()));
     let mut n = 0;
     let mut skipped: Vec<String> = vec![];
@@ -537,9 +541,10 @@ fn mode_determinism(_seed: u64, limit: usize) -> Vec<serde_json::Value> {
         let toml = std::fs::read_to_string(d.join("aiken.toml")).unwrap_or_default();
         if toml.contains("[[dependencies]]") || !d.join("validators").is_dir() { continue; }
         let name = d.file_name().map(|s| s.to_string_lossy().to_string()).unwrap_or_default();
-        for (tname, tracing) in [("silent", aiken_lang::ast::Tracing::silent()), ("verbose", aiken_lang::ast::Tracing::verbose())] {
-            let input = serde_json::json!({"project": format!("examples/acceptance_tests/{name}"), "tracing": tname});
-            let runs: Vec<Result<Result<String, String>, String>> = (0..3).map(|_| guarded(|| build_once(&d, &work, tracing))).collect();
+        let rebuilds = if d == fixture { 8 } else { 3 };
+        for (tname, tracing) in [("silent", aiken_lang::ast::Tracing::silent()), ("compact", aiken_lang::ast::Tracing::All(aiken_lang::ast::TraceLevel::Compact)), ("verbose", aiken_lang::ast::Tracing::verbose())] {
+            let input = serde_json::json!({"project": if d == fixture { "fixtures/histories".to_string() } else { format!("examples/acceptance_tests/{name}") }, "tracing": tname});
+            let runs: Vec<Result<Result<String, String>, String>> = (0..rebuilds).map(|_| guarded(|| build_once(&d, &work, tracing))).collect();
             n += 1;
             match &runs[0] {
                 Err(p) => { fails.push(fail("determinism", "the build panicked", input, "a blueprint or diagnostics".into(), format!("panic: {p}"))); continue }
@@ -564,12 +569,18 @@ fn mode_determinism(_seed: u64, limit: usize) -> Vec<serde_json::Value> {
     let mut n_projects = 0;
     let mut dirs: Vec<std::path::PathBuf> = std::fs::read_dir(root).map(|rd| rd.filter_map(|e| e.ok()).map(|e| e.path()).collect()).unwrap_or_default();
     dirs.sort();
+    dirs.insert(0, fixture.clone());
     for d in dirs {
         if fails.len() >= limit { break; }
         let toml = std::fs::read_to_string(d.join("aiken.toml")).unwrap_or_default();
         if toml.contains("[[dependencies]]") || !d.join("aiken.toml").is_file() { continue; }
-        let name = d.file_name().map(|s| s.to_string_lossy().to_string()).unwrap_or_default();
-        let input = serde_json::json!({"project": format!("examples/acceptance_tests/{name}"), "what": "re-used vs fresh generator"});
+        let name = if d == fixture { "fixtures/histories".to_string() } else { format!("examples/acceptance_tests/{}", d.file_name().map(|s| s.to_string_lossy().to_string()).unwrap_or_default()) };
+        let levels: Vec<(&str, aiken_lang::ast::Tracing)> = if d == fixture {
+            vec![("silent", aiken_lang::ast::Tracing::silent()), ("compact", aiken_lang::ast::Tracing::All(aiken_lang::ast::TraceLevel::Compact)), ("verbose", aiken_lang::ast::Tracing::verbose())]
+        } else {
+            vec![("verbose", aiken_lang::ast::Tracing::verbose())]
+        };
+        let input = serde_json::json!({"project": name, "what": "re-used vs fresh generator"});
         let r = guarded(|| -> Result<(usize, Option<String>), String> {
             let _ = std::fs::remove_dir_all(&work);
             copy_dir(&d, &work).map_err(|e| format!("copy: {e}"))?;
@@ -579,17 +590,32 @@ fn mode_determinism(_seed: u64, limit: usize) -> Vec<serde_json::Value> {
                 .map_err(|e| format!("does not type-check ({} errors)", e.len()))?;
             let mut modules = project.modules();
             modules.sort_by(|a, b| a.name.cmp(&b.name));
-            let mut shared = project.new_generator(aiken_lang::ast::Tracing::verbose());
             let mut count = 0;
-            for m in &modules {
-                for def in m.ast.definitions() {
-                    if let aiken_lang::ast::Definition::Test(t) = def {
-                        if !t.arguments.is_empty() { continue; }
+            for (lname, tracing) in &levels {
+                for reverse in [false, true] {
+                    // every program of the project, in this order, on ONE generator ...
+                    let mut shared = project.new_generator(*tracing);
+                    let mut order: Vec<(&aiken_project::module::CheckedModule, &aiken_lang::ast::TypedDefinition)> = vec![];
+                    for m in &modules { for def in m.ast.definitions() { order.push((m, def)); } }
+                    if reverse { order.reverse(); }
+                    for (m, def) in order {
+                        // ... against a generator created just for it
+                        let (what, reused, fresh) = match def {
+                            aiken_lang::ast::Definition::Test(t) if t.arguments.is_empty() => (
+                                format!("test {}.{}", m.name, t.name),
+                                shared.generate_raw(&t.body, &[], &m.name).to_pretty(),
+                                project.new_generator(*tracing).generate_raw(&t.body, &[], &m.name).to_pretty(),
+                            ),
+                            aiken_lang::ast::Definition::Validator(v) => (
+                                format!("validator {}.{}", m.name, v.name),
+                                shared.generate(v, &m.name).to_pretty(),
+                                project.new_generator(*tracing).generate(v, &m.name).to_pretty(),
+                            ),
+                            _ => continue,
+                        };
                         count += 1;
-                        let reused = shared.generate_raw(&t.body, &[], &m.name).to_pretty();
-                        let fresh = project.new_generator(aiken_lang::ast::Tracing::verbose()).generate_raw(&t.body, &[], &m.name).to_pretty();
                         if reused != fresh {
-                            return Ok((count, Some(format!("test {}.{} (the {}th program of the shared generator)", m.name, t.name, count))));
+                            return Ok((count, Some(format!("{what} at trace level {lname}, definitions in {} order", if reverse { "reverse" } else { "source" }))));
                         }
                     }
                 }
@@ -604,10 +630,10 @@ fn mode_determinism(_seed: u64, limit: usize) -> Vec<serde_json::Value> {
         }
     }
     let _ = std::fs::remove_dir_all(&work);
-    println!("BOUNDS mode=determinism {n_tests} unit tests of {n_projects} dependency-free acceptance projects: one shared generator vs a fresh generator per test, programs compared as text");
+    println!("BOUNDS mode=determinism {n_tests} programs (unit tests and validators) of {n_projects} projects (the dependency-free acceptance projects + the histories fixture at 3 trace levels), in source and in reverse order: one shared generator vs a fresh generator per program, compared as text");
     if !skipped.is_empty() { println!("NOTE mode=determinism {} pairs did not build and were skipped, e.g. {}", skipped.len(), skipped[0]); }
     let n = n - skipped.len();
-    println!("BOUNDS mode=determinism {n} (project, trace level) pairs: every dependency-free acceptance project with validators, built 3 times in one process (fresh randomly-seeded hash maps each time) at trace levels silent and verbose; blueprints compared byte for byte");
+    println!("BOUNDS mode=determinism {n} (project, trace level) pairs: every dependency-free acceptance project with validators built 3 times, the histories fixture 8 times, in one process (fresh randomly-seeded hash maps each time) at trace levels silent, compact and verbose; blueprints compared byte for byte");
     fails
 }
 
